@@ -104,3 +104,61 @@ def must_precede_exits(block, marker, end_is_exit=True):
     if end_is_exit and not div and not sat:
         bad.append((block.get("el", block.get("l")), "end of block"))
     return bad
+
+
+def loop_progress(body, marker):
+    """For a loop body: every path that reaches the end of the body (or a `continue`) must have executed a
+    statement for which marker(node) holds; `break` / `return` leave the loop and need nothing.
+    Returns the list of offending points [(line, kind)]."""
+    bad = []
+
+    def walk_block(block, sat):
+        """returns (satisfied_at_end, diverges)"""
+        stmts = block["s"] if block.get("k") == "block" else [block]
+        for st in stmts:
+            k = st.get("k")
+            if k in ("break", "return"):
+                return sat, True
+            if k == "continue":
+                if not sat:
+                    bad.append((st["l"], "continue"))
+                return sat, True
+            if k == "if":
+                c_sat = sat or _contains_marker(st["c"], marker)
+                t_sat, t_div = walk_block(st["t"], c_sat)
+                if st.get("e") is not None:
+                    e_sat, e_div = walk_block(st["e"], c_sat)
+                else:
+                    e_sat, e_div = c_sat, False
+                if t_div and e_div:
+                    return sat, True
+                sat = e_sat if t_div else t_sat if e_div else (t_sat and e_sat)
+                continue
+            if k == "match":
+                sats, alldiv = [], True
+                m_sat = sat or _contains_marker(st["e"], marker)
+                for arm in st["arms"]:
+                    a_sat, a_div = walk_block(arm["body"], m_sat)
+                    if not a_div:
+                        sats.append(a_sat)
+                        alldiv = False
+                if alldiv and st["arms"]:
+                    return sat, True
+                sat = all(sats) if sats else m_sat
+                continue
+            if k in ("for", "while", "loop"):
+                # an inner loop may run zero times: contributes nothing
+                continue
+            if k == "block":
+                sat, div = walk_block(st, sat)
+                if div:
+                    return sat, True
+                continue
+            if _contains_marker(st, marker):
+                sat = True
+        return sat, False
+
+    sat, div = walk_block(body, False)
+    if not div and not sat:
+        bad.append((body.get("el", body.get("l")), "end of loop body"))
+    return bad
